@@ -430,3 +430,96 @@ func controlOf(s scriptSpec) scriptSpec {
 	s.Control = true
 	return s
 }
+
+// ---------------------------------------------------------------------------------------
+// Special scripts: recursion of every kind, recovery after overflow, threads sharing containers
+
+type special struct {
+	Name       string
+	Src        string
+	InputClass string
+	Conc       bool
+	DeadlineMS int
+}
+
+func specialScripts(thorough bool) []special {
+	var out []special
+	add := func(name, icls, src string) { out = append(out, special{Name: name, Src: src, InputClass: icls}) }
+	rec := "unbounded-recursion"
+	add("recursion-direct", rec, `func f() { f() }; f()`)
+	add("recursion-return", rec, `func f(n) { return f(n + 1) }; f(0)`)
+	add("recursion-args", rec, `func f(a, b, c, d) { return f(b, c, d, a) + 1 }; f(1, 2, 3, 4)`)
+	add("recursion-mutual", rec, `func a() { return b() }; func b() { return a() }; a()`)
+	add("recursion-closure", rec, `f := nil; f = func() { return f() }; f()`)
+	add("recursion-locals", rec, `func f(n) { a := n; b := [a]; c := {"k": b}; return f(n + 1) }; f(0)`)
+	add("recursion-list-map", rec, `func f(x) { return [1].map(f) }; f(1)`)
+	add("recursion-list-each", rec, `func f(x) { [1].each(f) }; f(1)`)
+	add("recursion-list-filter", rec, `func f(x) { return [1].filter(f) }; f(1)`)
+	add("recursion-sorted-cmp", rec, `func c(a, b) { sorted([2, 1], c); return a < b }; sorted([2, 1], c)`)
+	add("recursion-sort-method-cmp", rec, `func c(a, b) { [2, 1].sort(c); return a < b }; [2, 1].sort(c)`)
+	add("recursion-try-body", rec, `func f() { return try(f) }; f()`)
+	add("recursion-try-handler", rec, `func f(e) { return try(func() { error("x") }, f) }; f(1)`)
+	add("recursion-call-builtin", rec, `func f() { return call(f) }; f()`)
+	add("recursion-defer", rec, `func f() { defer f() }; f()`)
+	add("recursion-defer-closure", rec, `func f() { defer func() { f() }() }; f()`)
+	add("recursion-template", rec, `func f() { return '{f()}' }; f()`)
+	add("recursion-pipe", rec, `func f(x) { return x | f }; f(1)`)
+	add("recursion-default-arg", rec, `func f(a=1) { return f() }; f()`)
+	add("recursion-partial-go", rec, `func f() { go f() }; f()`)
+	add("recursion-each-map", rec, `func f(k) { {"a": 1}.each(f) }; f(1)`)
+	add("recursion-set-each", rec, `func f(k) { {1}.each(f) }; f(1)`)
+	add("recursion-spawn-args", rec, `func f(x) { return spawn(f, x) }; f(1)`)
+	add("recursion-iter-callback", rec, `func f(x) { for y := range [1] { f(y) } }; f(1)`)
+	add("recursion-string-fields-func", rec, `func f(x) { return "a b".fields().map(f) }; f(1)`)
+	for _, n := range []int{100, 1000, 1020, 1022, 1023, 1024, 1025, 1100, 5000, 100000} {
+		add(fmt.Sprintf("recursion-bounded-%d", n), "bounded-recursion", fmt.Sprintf(`func f(n) { if n == 0 { return 0 }; return 1 + f(n - 1) }; f(%d)`, n))
+		add(fmt.Sprintf("recursion-bounded-callback-%d", n), "bounded-recursion", fmt.Sprintf(`func f(n) { if n == 0 { return [0] }; return [n].map(func(x) { return f(x - 1) }) }; len(f(%d))`, n))
+	}
+	add("overflow-then-continue", rec, `func f() { f() }; try(f); func g(n) { if n == 0 { return 0 }; return 1 + g(n - 1) }; g(500)`)
+	add("overflow-in-loop", rec, `func f() { f() }; n := 0; for i := range 50 { try(f, func(e) { n++ }) }; n`)
+	add("overflow-handler-string", rec, `func f() { f() }; try(f, func(e) { return string(e) })`)
+	add("overflow-with-defer", rec, `func f() { defer func() { 1 }(); f() }; f()`)
+	add("overflow-operand-stack", "stack-filling", `func f(n) { return [n, [n, [n, [n, [n, [n, [n, [n, f(n + 1)]]]]]]]] }; f(0)`)
+	add("overflow-callback-operand-stack", "stack-filling", `func f(n) { return [1, 2, 3, 4, 5, 6, 7, 8].map(func(x) { return [x, x, x, x, f(n + 1)] }) }; f(0)`)
+	add("try-around-cyclic-eq", "cyclic-data", `try(func() { l := [1]; l.append(l); return l == l }, func(e) { return "caught" })`)
+	add("try-around-cyclic-json", "cyclic-data", `try(func() { m := {}; m["m"] = m; return json.marshal(m) }, func(e) { return "caught" })`)
+	add("cyclic-result-list", "cyclic-data", `l := [1]; l.append(l); l`)
+	add("cyclic-result-map", "cyclic-data", `m := {"a": 1}; m["self"] = m; m`)
+	add("cyclic-result-nested", "cyclic-data", `l := [1]; m := {"l": l}; l.append(m); [m, l]`)
+	add("cyclic-error-value", "cyclic-data", `l := [1]; l.append(l); error("%v", l)`)
+	add("cyclic-error-arg", "cyclic-data", `l := [1]; l.append(l); error(l)`)
+	add("cyclic-closure-default", "cyclic-data", `l := [1]; l.append(l); func f(a=1) { return l }; f`)
+	add("cyclic-print", "cyclic-data", `l := [1]; l.append(l); print(l); printf("%v %s\n", l, l); sprintf("%v", l)`)
+	add("cyclic-set-attempt", "cyclic-data", `s := {1}; s.add(s)`)
+	add("cyclic-map-key-attempt", "cyclic-data", `m := {}; m[m] = m`)
+	add("cyclic-function-default", "cyclic-data", `func f(a=f) { return a }; f()`)
+	add("sprintf-width", "format-width", `len(sprintf("%2000000d", 1))`)
+	add("sprintf-precision", "format-width", `len(sprintf("%.2000000f", 1.5))`)
+	add("many-threads", "threads", `ts := []; for i := range 500 { ts.append(spawn(func(x) { return x * 2 }, i)) }; ts.map(func(t) { return t.wait() }) | len`)
+	add("thread-error", "threads", `t := spawn(func() { error("in thread") }); try(func() { return t.wait() }, func(e) { return string(e) })`)
+	add("thread-index-panic", "threads", `t := spawn(func() { return [][5] }); t.wait()`)
+	add("thread-overflow", "threads", `func f() { f() }; t := spawn(f); t.wait()`)
+	add("go-overflow", "threads", `func f() { f() }; go f(); time.sleep(0.05)`)
+	add("go-error", "threads", `go func() { error("x") }(); time.sleep(0.02)`)
+	add("go-nil-call", "threads", `f := nil; go f(); time.sleep(0.02)`)
+	add("chan-close-twice", "threads", `c := chan(1); close(c); close(c)`)
+	add("chan-send-closed", "threads", `c := chan(1); close(c); c <- 1`)
+	add("chan-send-closed-in-thread", "threads", `c := chan(); t := spawn(func() { c <- 1 }); close(c); t.wait()`)
+	add("chan-range-closed", "threads", `c := chan(2); c <- 1; c <- 2; close(c); n := 0; for x := range c { n += x }; n`)
+	shared := "shared-container-in-threads"
+	add("threads-map-set", shared, `m := {}; func w() { for i := range 200000 { m[string(i)] = i } }; t1 := spawn(w); t2 := spawn(w); t1.wait(); t2.wait(); len(m)`)
+	add("threads-map-read-write", shared, `m := {"a": 1}; func w() { for i := range 200000 { m[string(i)] = i } }; func r() { n := 0; for i := range 400000 { n += len(m.get("a", 0) == 1 ? "x" : "") }; return n }; t1 := spawn(w); t2 := spawn(r); t1.wait(); t2.wait(); 1`)
+	add("threads-map-iterate-write", shared, `m := {"a": 1}; func w() { for i := range 200000 { m[string(i)] = i } }; func r() { n := 0; for j := range 200 { for k, v := range m { n++ } }; return n }; t1 := spawn(w); t2 := spawn(r); t1.wait(); t2.wait(); 1`)
+	add("threads-set-add", shared, `s := {0}; func w() { for i := range 200000 { s.add(i) } }; t1 := spawn(w); t2 := spawn(w); t1.wait(); t2.wait(); len(s)`)
+	add("threads-list-append", shared, `l := []; func w() { for i := range 200000 { l.append(i) } }; t1 := spawn(w); t2 := spawn(w); t1.wait(); t2.wait(); len(l) > 0`)
+	add("threads-list-pop-append", shared, `l := [1, 2, 3]; func w() { for i := range 200000 { l.append(i); l.pop(0) } }; t1 := spawn(w); t2 := spawn(w); t1.wait(); t2.wait(); 1`)
+	add("threads-buffer-write", shared, `b := buffer(); func w() { for i := range 100000 { b.write("x") } }; t1 := spawn(w); t2 := spawn(w); t1.wait(); t2.wait(); 1`)
+	add("threads-global-assign", shared, `g := 0; func w() { for i := range 200000 { g = g + 1 } }; t1 := spawn(w); t2 := spawn(w); t1.wait(); t2.wait(); g > 0`)
+	add("threads-map-delete", shared, `m := {}; func w() { for i := range 100000 { m["k"] = i; delete(m, "k") } }; t1 := spawn(w); t2 := spawn(w); t1.wait(); t2.wait(); 1`)
+	for i := range out {
+		out[i].Conc = true
+		out[i].DeadlineMS = 8000
+	}
+	_ = thorough
+	return out
+}
